@@ -14,8 +14,14 @@ ID = "C06"
 RULE = ("cases = causal filter shapes (orders <= 3) in which a generated non-empty subset of "
         "coefficient positions, the leading denominator coefficient included, is a Stream over a "
         "counting source (finite of generated length, or endless periodic), built as Stream*z**-k "
-        "expressions or from dicts; second clause: sums, products, scalings and delays of two such "
-        "filters; oracle = the difference equation with per-sample coefficient lookup "
+        "expressions or from dicts / lists (in a share of the cases every Stream coefficient is made "
+        "with the library's own constructors Stream(c) / Stream(a, b, ...) and shifted / cut in place "
+        "with skip / limit); algebra clauses: sums, products, scalings, delays, quotients and integer "
+        "powers (2..5, negative where causal) of such filters, and a filter combined with a bare "
+        "Stream or a number on either side; clause again: the same filter called twice (constants, "
+        "ControlStreams, endless and long enough finite streams, user-made hubs with one copy per "
+        "call): the second call obeys the difference equation from the streams' current positions "
+        "and no call changes the filter's polynomials; oracle = the difference equation with per-sample coefficient lookup "
         "(diffeq_ref) on coefficient sequences combined element by element, output length = "
         "min(len(x), shortest coefficient stream), clean StopIteration there, and pull counts on "
         "every source; non-trivial = a stream coefficient in the denominator or at least two "
@@ -23,7 +29,8 @@ RULE = ("cases = causal filter shapes (orders <= 3) in which a generated non-emp
 ASSUMPTIONS = [
   "coefficient and sample values are Q (exact); a0 streams never contain 0",
   "sums of two filters are generated with structurally different denominators (or both constant), so the library's documented cross-multiplied form applies",
-  "a coefficient Stream is single-use: every case builds fresh Streams",
+  "a coefficient Stream is single-use: every case builds fresh Streams (clause again uses one filter, hence the same Streams, for two calls one after the other; the first call is always bounded by its input)",
+  "one-term polynomials are raised to negative powers term by term (c ** -p in Python's arithmetic): leading constants of such cases are powers of two; f / c is f * (1 / c) with the reciprocal as Python computes it: c = 3 is replaced by 2 there",
 ]
 
 ZERO = Q(0)
@@ -81,6 +88,24 @@ class Built(object):
       import itertools
       self.lens.append(v[1])
       return Stream(itertools.repeat(v[0], v[1]))       # no counting source: values and length only
+    if kind == "native":
+      # the library's own constructors: Stream(c) (endless constant), Stream(a, b, ...) (endless periodic),
+      # then shifted / made finite IN PLACE with .skip(k) / .limit(n) (the object keeps its identity)
+      vals, skip, limit = v
+      s = Stream(*vals)
+      if skip:
+        s.skip(skip)
+      if limit is not None:
+        s.limit(limit)
+        self.lens.append(limit)
+      return s
+    if kind == "hub":
+      # a user-made hub with one copy per call of the filter: every copy is the whole sequence
+      from audiolazy import thub
+      vals, uses = v
+      s = Src(vals)
+      self.srcs.append((s, kind, len(vals)))
+      return thub(Stream(s), uses)
     if kind == "plainseq":
       s = Src([F(t) for t in v])
       self.srcs.append((s, kind, len(v)))
@@ -106,6 +131,40 @@ def exactify(*coef_lists):
   return tuple([fix(c) for c in l] for l in coef_lists)
 
 
+def nativize(c):
+  """The same coefficient made with the library's own constructors (no counting source)."""
+  kind, v = c
+  if kind in ("seq", "plainseq"):
+    vals = [Q(t) for t in v[:1 + len(v) % 3]] or [Q(1)]
+    return ("native", (vals, len(v) % 2, len(v)))
+  if kind == "periodic":
+    return ("native", (list(v), len(v) - 1, None))
+  if kind == "conststream":
+    return ("native", ([v], 0, None))
+  if kind == "finrep":
+    return ("native", ([v[0]], 0, v[1]))
+  return c
+
+
+def poly_state(filt):
+  return [list(filt.numpoly.terms()), list(filt.denpoly.terms())]
+
+
+def same_polys(before, after):
+  for p, q in zip(before, after):
+    if len(p) != len(q):
+      return False
+    for (k1, v1), (k2, v2) in zip(p, q):
+      if k1 != k2:
+        return False
+      if isinstance(v1, Stream) or isinstance(v2, Stream):
+        if v1 is not v2:
+          return False
+      elif type(v1) is not type(v2) or v1 != v2:
+        return False
+  return True
+
+
 def seq_of(c, n):
   """Model: per-sample value list of length <= n (constants are constant sequences)."""
   kind, v = c
@@ -113,6 +172,11 @@ def seq_of(c, n):
     return F(v)
   if kind == "finrep":
     return [F(v[0])] * min(v[1], n)
+  if kind == "native":
+    vals, skip, limit = v
+    return [F(vals[(i + skip) % len(vals)]) for i in range(n if limit is None else min(n, limit))]
+  if kind == "hub":
+    return [F(t) for t in v[0][:n]]
   if kind in ("seq", "plainseq", "control"):
     return [F(t) for t in v[:n]]
   if kind == "periodic":
@@ -145,7 +209,12 @@ def model_polys(b, a, n):
 def run_and_check(filt, N, D, x, bt, what, leak_check=True, mem=None, zero=ZERO):
   with warnings.catch_warnings(record=True) as w:
     warnings.simplefilter("always")
+    state = poly_state(filt)
     out = filt(list(x), zero=zero) if mem is None else filt(list(x), zero=zero, memory=list(mem))
+    # the filter is an operand, not a consumable: a call leaves its polynomials as they were
+    if not same_polys(state, poly_state(filt)):
+      raise Violation("%s: calling the filter changed the filter itself: %r / %r before, %r / %r after"
+                      % ((what,) + tuple(state) + tuple(poly_state(filt))))
     # "sampled once per output sample": nothing is sampled by the call itself, and
     # after j outputs every coefficient source has delivered exactly j values
     for s, kind, l in bt.srcs:
@@ -174,7 +243,10 @@ def run_and_check(filt, N, D, x, bt, what, leak_check=True, mem=None, zero=ZERO)
       pass
     else:
       raise Violation("%s: output resumed after it had ended" % what)
-    del out, it, filt
+    if not same_polys(state, poly_state(filt)):
+      raise Violation("%s: using the output changed the filter itself: %r / %r before, %r / %r after"
+                      % ((what,) + tuple(state) + tuple(poly_state(filt))))
+    del out, it, filt, state
     gc.collect()
   exp = diffeq_ref(N, D, x, zero, mem)
   if len(got) != len(exp):
@@ -208,7 +280,10 @@ def strat_single(tier):
     null_num=st.sampled_from([False] * 5 + [True]),
     mem=st.one_of(st.none(), st.none(), st.lists(qv, min_size=3, max_size=3)),
     # the value standing for x[n<0] and, without a memory, y[n<0]
-    zero=st.one_of(st.just(ZERO), st.just(ZERO), qnz))))
+    zero=st.one_of(st.just(ZERO), st.just(ZERO), qnz),
+    # every Stream coefficient made with the library's own constructors and cut in place
+    # ("tail": the leading denominator coefficient is then a plain constant)
+    native=st.sampled_from([None] * 4 + ["all", "tail"]))))
 
 
 def labels_for(b, a, x, got, bt):
@@ -224,6 +299,12 @@ def labels_for(b, a, x, got, bt):
     labels.append("periodic")
   if "conststream" in kinds:
     labels.append("constant stream")
+  if "native" in kinds:
+    labels.append("native stream")
+    if any(cc[0] == "native" and cc[1][2] is not None and cc[1][2] < len(x) for cc in b + a):
+      labels.append("native stream ends first")
+      if all(cc[0] in ("native", "const") for cc in b + a) and a[0][0] == "const":
+        labels.append("only native streams, one ends first, constant a0")
   return labels
 
 
@@ -232,6 +313,12 @@ def run_single(c):
   x = c["x"]
   if all(cc[0] == "const" for cc in b + a):
     b = [("seq", [Q(1)] * (len(x) + 1))] + list(b[1:])   # keep the case time-varying
+  if c.get("native"):
+    b, a = [nativize(cc) for cc in b], [nativize(cc) for cc in a]
+    if c["native"] == "tail" and a[0][0] != "const":
+      a = [("const", 2)] + a[1:]
+      if all(cc[0] == "const" for cc in b + a):
+        b = [("native", ([Q(1), Q(-2)], 1, len(x) - 1))] + list(b[1:])
   FEED = ("seq", [Q(1, 2), Q(-1), Q(2), Q(-1, 3)] * 3)
   if c.get("null_num"):
     b = []
@@ -331,16 +418,33 @@ def P_mul(a, b):
   return r
 
 
+def P_pow(a, p):
+  r = a
+  for unused in range(p - 1):
+    r = P_mul(r, a)
+  return r
+
+
 def nonzero(m):
   return {k: v for k, v in m.items() if isinstance(v, list) or v != 0}
 
 
-def strat_algebra(tier):
+OPS1 = ["add", "sub", "mul", "scale", "delay", "mul_iir", "add_iir", "neg", "shared_square",
+        "hub_reuse", "hub_reuse", "div_delayed_gain", "add_fir_to_iir", "add_number", "copy",
+        "mul_common", "mul_common"]
+OPS2 = ["pow", "pow", "pow", "operand", "operand", "operand", "operand", "div", "div", "add_twin", "add_twin"]
+OKINDS = ["f*s", "f*s", "s*f", "f/s", "f/s", "s/f", "f+s", "f+s", "s+f", "f-s", "f-s", "s-f",
+          "f*c", "f/c", "c/f", "f-c", "c-f"]
+
+
+def strat_algebra(tier, ops=OPS1):
   fir = lambda lo, hi: st.lists(coef(lo, hi), min_size=1, max_size=3).map(live)
   return st.integers(3, 7).flatmap(lambda n: st.fixed_dictionaries(dict(
-    op=st.sampled_from(["add", "sub", "mul", "scale", "delay", "mul_iir", "add_iir", "neg", "shared_square",
-                        "hub_reuse", "hub_reuse", "div_delayed_gain", "add_fir_to_iir", "add_number", "copy",
-                        "mul_common", "mul_common"]),
+    op=st.sampled_from(ops),
+    # powers (pw, negative or not, with or without a denominator), the kind of a Stream / number operand,
+    # the denominators of a quotient of two filters (common constant polynomial / own / none)
+    pw=st.integers(2, 5), pneg=st.sampled_from([False, False, True]), pden=st.booleans(),
+    okind=st.sampled_from(OKINDS), dv=st.sampled_from(["common", "common", "iir", "fir"]),
     hub=st.fixed_dictionaries(dict(c0=st.integers(1, 3), c1=st.integers(-3, 3).filter(lambda v: v != 0),
                                    c2=st.integers(-2, 2), d=st.integers(3, 4), extra=st.integers(0, 1),
                                    feedback=st.booleans())),
@@ -361,6 +465,7 @@ def run_algebra(c):
   n = len(x) + 2
   bt = Built()
   one = [("const", 1)]
+  extra_labels = []
   if op == "div_delayed_gain":
     # f / (g * z**-k) with a Stream gain g: the delay cancels against f's own delays and
     # y[n] = (sum_j f_j[n] x[n-j+k]) / g[n], every g value used once
@@ -462,6 +567,138 @@ def run_algebra(c):
     real = (f * g) if len(x) % 2 else (g * f)
     N, D = P_mul(Nf, Cp), P_mul(Cp, Dg)
     used = (fb + C, C + ga)
+  elif op == "pow":
+    # f ** p is the p-fold product (every coefficient Stream is then needed in p factors); f ** -p is the
+    # p-fold product of the inverted filter, causal when the leading numerator coefficient is invertible
+    p, neg = c["pw"], c["pneg"]
+    num = list(c["g"][1]) if neg else list(c["f"][0])
+    den = list(c["f"][1]) if c["pden"] else list(one)
+    if neg:
+      # one-term polynomials are raised term by term: 3 ** -p is a rounded float, powers of two are exact
+      fix3 = lambda cc: ("const", 2) if cc == ("const", 3) else cc
+      num, den = [fix3(num[0])] + num[1:], [fix3(den[0])] + den[1:]
+    if all(cc[0] == "const" for cc in num + den):
+      num = num + [("seq", [Q(2), Q(-1), Q(1, 2), Q(3)] * 3)]
+    f = build_filter(num, den, c.get("route", "expr"), bt)
+    Nf, Df = model_polys(num, den, n)
+    Nf, Df = nonzero(Nf), nonzero(Df)
+    real = f ** (-p if neg else p)
+    N, D = P_pow(Nf, p), P_pow(Df, p)
+    if neg:
+      N, D = D, N
+    used = (num, den + [("const", -p if neg else p)])
+    extra_labels = ["pow negative" if neg else "pow positive", "pow >= 3" if p >= 3 else "pow 2"] + (
+      ["pow of a one-term stream polynomial"] if any(len(P) == 1 and isinstance(list(P.values())[0], list)
+                                                      for P in (Nf, Df)) else []) + (
+      ["pow >= 3, stream in denominator"] if p >= 3 and any(cc[0] != "const" for cc in den) else [])
+  elif op == "add_twin":
+    # a sum / difference of two filters whose denominators look alike when the sum is built: the same
+    # constants, and at every Stream position another Stream object of the same kind that starts with the
+    # same value and differs later. Different Stream objects are different coefficient sequences, so the
+    # sum is the cross-multiplied (Nf*Dg + Ng*Df) / (Df*Dg); only all-constant equal denominators are shared
+    DEFCTL = ("control", [Q(1, 2), Q(-1), Q(2), Q(-1, 3), Q(1), Q(-2), Q(1, 2), Q(3), Q(-1), Q(2)])
+    fb, fa = list(c["f"][0]), list(c["f"][1])
+    gb = list(c["gb"])
+    if not c["pden"] and all(cc[0] == "const" for cc in fa):
+      fa = fa + [DEFCTL]
+    def twin(cc):
+      kind, v = cc
+      if kind in ("control", "seq", "plainseq"):
+        return (kind, [v[0]] + [2 * t for t in v[1:]])
+      if kind == "periodic":
+        return (kind, list(v) + [2 * v[0]])
+      if kind == "conststream":
+        return ("periodic", [v, 2 * v])
+      if kind == "finrep":
+        return ("seq", [v[0]] + [2 * v[0]] * (v[1] - 1))
+      return cc
+    ga = [twin(cc) for cc in fa]
+    f = build_filter(fb, fa, c.get("route", "expr"), bt)
+    g = build_filter(gb, ga, c.get("route", "expr"), bt)
+    Nf, Df = model_polys(fb, fa, n)
+    Ng, Dg = model_polys(gb, ga, n)
+    minus = c["pneg"]
+    if minus:
+      Ng = {k: s_mul(v, F(-1)) for k, v in Ng.items()}
+    real = (f - g) if minus else (f + g)
+    if all(cc[0] == "const" for cc in fa):
+      N, D = P_add(Nf, Ng), Df
+    else:
+      N, D = P_add(P_mul(Nf, Dg), P_mul(Ng, Df)), P_mul(Df, Dg)
+    used = (fb + gb, fa + ga)
+    extra_labels = ["twin: constant denominators" if all(cc[0] == "const" for cc in fa) else "twin: stream denominators"] + (
+      ["twin: ControlStreams placed directly"] if any(cc[0] == "control" for cc in fa) and c.get("route") != "expr" else [])
+  elif op == "operand":
+    # a filter combined with a bare Stream (a time-varying gain / offset) or a number on either side
+    kind = c["okind"]
+    if kind == "f/c" and any(cc[0] == "plainseq" for l in (fb_, fa_, gb_, ga_) for cc in l):
+      kind = "f*c"    # 1 / c is a float whatever c is, and a float times a plain Fraction is Python's float arithmetic
+    inverted = kind in ("s/f", "c/f")
+    fb, fa = (list(c["g"][1]) if inverted else list(c["f"][0])), list(c["f"][1])
+    if all(cc[0] == "const" for cc in fb + fa):
+      fb = fb + [("seq", [Q(2), Q(-1), Q(1, 2), Q(3)] * 3)]
+    f = build_filter(fb, fa, c.get("route", "expr"), bt)
+    Nf, Df = model_polys(fb, fa, n)
+    if "s" in kind:
+      ospec = c["gb"][0] if c["gb"][0][0] in ("seq", "periodic", "conststream", "plainseq", "finrep") else \
+        ("seq", [Q(2), Q(-1), Q(1, 2), Q(3)] * 3)
+      if kind == "f/s":
+        unz = lambda v: v if v != 0 else Q(1)
+        ospec = (ospec[0], [unz(v) for v in ospec[1]]) if ospec[0] in ("seq", "periodic", "plainseq") else \
+          (ospec[0], (unz(ospec[1][0]), ospec[1][1])) if ospec[0] == "finrep" else (ospec[0], unz(ospec[1]))
+      o = bt.real(ospec)
+      om = seq_of(ospec, n)
+      oinv = [1 / v for v in om] if kind == "f/s" else None
+    else:
+      import operator
+      if kind == "f/c" and abs(c["c"]) in (3, 6):
+        c["c"] = 2      # 1 / 3 is a rounded float and float constants times it round again: keep the quotient exact
+      ospec = ("const", c["c"])
+      o = c["c"]
+      om = F(o)
+      oinv = F(operator.truediv(1, o))     # f / c is f * (1 / c), the reciprocal taken as the number Python computes
+    O = {0: om}
+    if kind[1] == "*":
+      real = (f * o) if kind[0] == "f" else (o * f)
+      N, D = P_mul(Nf, O), Df
+    elif kind in ("f/s", "f/c"):
+      real = f / o
+      N, D = P_mul(Nf, {0: oinv}), Df
+    elif inverted:
+      real = o / f
+      N, D = P_mul(O, Df), Nf
+    elif kind[1] == "+":
+      real = (f + o) if kind[0] == "f" else (o + f)
+      N, D = P_add(Nf, P_mul(O, Df)), Df
+    elif kind[0] == "f":
+      real = f - o
+      N, D = P_add(Nf, P_mul({0: s_mul(om, F(-1))}, Df)), Df
+    else:
+      real = o - f
+      N, D = P_add(P_mul(O, Df), {k: s_mul(v, F(-1)) for k, v in Nf.items()}), Df
+    used = (fb + [ospec], fa)
+    extra_labels = ["operand:" + kind, "stream operand" if "s" in kind else "number operand"] + (
+      ["stream operand on a filter with feedback"] if "s" in kind and len(nonzero(Df)) > 1 else [])
+  elif op == "div":
+    # a quotient of two filters, element by element (Nf*Dg) / (Df*Ng) - also when the two denominators are
+    # the same constant polynomial C (with Streams in Nf or Ng that is NOT the system Nf / Ng)
+    h = c["hub"]
+    C = [("const", h["c0"]), ("const", h["c1"])] + ([("const", h["c2"])] if h["c2"] else [])
+    fb, gb = list(c["f"][0]), list(c["g"][1])
+    fa = list(c["f"][1]) if c["dv"] == "iir" else (C if c["dv"] == "common" else list(one))
+    ga = C if c["dv"] in ("iir", "common") else list(one)
+    if all(cc[0] == "const" for cc in fb):
+      fb = fb + [("seq", [Q(2), Q(-1), Q(1, 2), Q(3)] * 3)]
+    if all(cc[0] == "const" for cc in gb):
+      gb = gb + [("seq", [Q(1, 2), Q(-1), Q(2)] * 4)]
+    f = build_filter(fb, fa, c.get("route", "expr"), bt)
+    g = build_filter(gb, ga, c.get("route", "expr"), bt)
+    Nf, Df = model_polys(fb, fa, n)
+    Ng, Dg = model_polys(gb, ga, n)
+    real = f / g
+    N, D = P_mul(Nf, Dg), P_mul(Df, Ng)
+    used = (fb + ga, fa + gb)
+    extra_labels = ["div:" + c["dv"]]
   elif op in ("add_fir_to_iir", "add_number"):
     # a filter with Streams in its feedback part plus a FIR filter / a plain number:
     # (Nf + Ng*Df) / Df - each denominator Stream is needed twice, still read once per sample
@@ -507,17 +744,141 @@ def run_algebra(c):
   got = run_and_check(real, nonzero(N), nonzero(D), x, bt, "%s of b=%r a=%r" % (op, used[0], used[1]),
                       leak_check=False)
   nstreams = len(bt.srcs)
-  return {"nontrivial": (nstreams >= 2 or op == "hub_reuse") and len(got) >= 3, "labels": ["op:" + op] + (
+  return {"nontrivial": (nstreams >= 2 or op in ("hub_reuse", "pow")) and len(got) >= 3, "labels": ["op:" + op] + extra_labels + (
     ["null left operand"] if op == "add_iir" and c.get("null_left") else []) + (
     ["control stream"] if bt.controls else []) + (
     ["coefficient stream ends first"] if any(l is not None and l < len(x) for _, _, l in bt.srcs) else [])}
+
+
+# ------------------------------------------------------------------ the same filter called twice
+def coef_again(n1, n2, nz=False):
+  """Coefficients that can serve two calls: constants, ControlStreams, endless constant / periodic
+  streams (over a counting source or made by Stream(c) / Stream(a, b)), finite streams long enough for
+  the first call, and user-made hubs holding one copy per call."""
+  vals = qnz if nz else qv
+  total = n1 + n2
+  k = (const_nz if nz else const).map(lambda v: ("const", v))
+  ctl = st.lists(vals, min_size=total + 2, max_size=total + 2).map(lambda l: ("control", l))
+  cst = vals.map(lambda v: ("conststream", v))
+  per = st.lists(vals, min_size=1, max_size=3).map(lambda l: ("periodic", l))
+  seq = st.lists(vals, min_size=n1, max_size=total + 2).map(lambda l: ("seq", l))
+  nat = st.tuples(st.lists(vals, min_size=1, max_size=3), st.integers(0, 2),
+                  st.one_of(st.none(), st.integers(n1, total + 2))).map(lambda t: ("native", (t[0], t[1], t[2])))
+  hub = st.lists(vals, min_size=max(n1, n2 - 1), max_size=max(n1, n2) + 2).map(lambda l: ("hub", (l, 2)))
+  return st.one_of(k, ctl, cst, per, seq, seq, nat, nat, hub)
+
+
+def strat_again(tier):
+  def shp(n1, n2):
+    b = st.lists(coef_again(n1, n2), min_size=1, max_size=3).map(live)
+    a = st.tuples(coef_again(n1, n2, nz=True), st.lists(coef_again(n1, n2), max_size=2)).map(lambda t: [t[0]] + t[1])
+    return st.tuples(b, a)
+  return st.tuples(st.integers(3, 5), st.integers(3, 6)).flatmap(lambda nn: st.fixed_dictionaries(dict(
+    shape=shp(*nn), x1=st.lists(qv, min_size=nn[0], max_size=nn[0]), x2=st.lists(qv, min_size=nn[1], max_size=nn[1]),
+    route=st.sampled_from(["expr", "dict", "list"]),
+    mem2=st.one_of(st.none(), st.none(), st.lists(qv, min_size=3, max_size=3)),
+    hashed=st.booleans())))
+
+
+def vals_from(c, start, count):
+  """Model: the values a coefficient delivers to a call that starts when `start` values were consumed."""
+  kind, v = c
+  if kind == "const":
+    return F(v)
+  if kind == "hub":
+    return [F(t) for t in v[0][:count]]         # every copy of a hub starts at the hub's first value
+  return seq_of(c, start + count)[start:]
+
+
+def run_again(c):
+  b, a = c["shape"]
+  x1, x2 = c["x1"], c["x2"]
+  route = c["route"]
+  if all(cc[0] == "const" for cc in b + a):
+    b = [("periodic", [Q(1), Q(-2)])] + list(b[1:])
+  if route == "expr":
+    # through Stream * z**-k a hub is consumed when the expression is built: it then is an ordinary stream
+    unhub = lambda cc: ("seq", list(cc[1][0])) if cc[0] == "hub" else cc
+    b, a = [unhub(cc) for cc in b], [unhub(cc) for cc in a]
+  bt = Built()
+  filt = build_filter(b, a, route, bt)
+  if c["hashed"]:
+    hash(filt)
+  what = "filter b=%r a=%r route=%s" % (b, a, route)
+  state = poly_state(filt)
+  labels = ["route:" + route]
+  outs = []
+  with warnings.catch_warnings(record=True):
+    warnings.simplefilter("always")
+    for call, (x, mem) in enumerate([(x1, None), (x2, c["mem2"])]):
+      start = 0 if call == 0 else len(x1)
+      if mem is not None:
+        mem = mem[:len(a) - 1]
+      before = [s.reads for s, kind, l in bt.srcs]
+      try:
+        out = filt(list(x), zero=ZERO) if mem is None else filt(list(x), zero=ZERO, memory=list(mem))
+      except Exception as e:
+        raise Violation("%s: call %d of the same filter raised %s: %s" % (what, call + 1, type(e).__name__, e))
+      if not same_polys(state, poly_state(filt)):
+        raise Violation("%s: call %d changed the filter itself: %r / %r before, %r / %r after"
+                        % ((what, call + 1) + tuple(state) + tuple(poly_state(filt))))
+      if [s.reads for s, kind, l in bt.srcs] != before:
+        raise Violation("%s: call %d itself read coefficient values" % (what, call + 1))
+      got = []
+      it = iter(out)
+      while True:
+        for cs, vals in bt.controls:
+          cs.value = vals[start + len(got)]
+        try:
+          got.append(next(it))
+        except StopIteration:
+          break
+        if len(got) > len(x):
+          raise Violation("%s: call %d gave more outputs than inputs" % (what, call + 1))
+        for (s, kind, l), r0 in zip(bt.srcs, before):
+          # a hub's source is read when the first of its copies needs a value; later copies replay it
+          want = max(r0, len(got)) if kind == "hub" else r0 + len(got)
+          if s.reads != want:
+            raise Violation("%s: call %d, after %d output(s) a %s coefficient source had been read %d times, expected %d"
+                            % (what, call + 1, len(got), kind, s.reads, want))
+      N = {k: vals_from(cc, start, len(x) + 2) for k, cc in enumerate(b)}
+      D = {k: vals_from(cc, start, len(x) + 2) for k, cc in enumerate(a)}
+      exp = diffeq_ref(nonzero(N), nonzero(D), x, ZERO, mem)
+      if len(got) != len(exp):
+        raise Violation("%s: call %d gave %d outputs, expected %d" % (what, call + 1, len(got), len(exp)))
+      for n, (g, e) in enumerate(zip(got, exp)):
+        if not (g == e):
+          raise Violation("%s: call %d (coefficient streams at position %d): y[%d] = %r, expected %r; full %r vs %r"
+                          % (what, call + 1, start, n, g, e, got, exp))
+      if not same_polys(state, poly_state(filt)):
+        raise Violation("%s: using the output of call %d changed the filter itself: %r / %r before, %r / %r after"
+                        % ((what, call + 1) + tuple(state) + tuple(poly_state(filt))))
+      if call == 1 and len(got) < len(x):
+        labels.append("coefficient stream ends in the second call")
+      outs.append(got)
+      del out, it
+      gc.collect()
+    del filt, state
+    gc.collect()
+  kinds = [cc[0] for cc in b + a]
+  labels += ["again:" + k for k in sorted(set(kinds)) if k != "const"]
+  if a[0][0] != "const":
+    labels.append("a0 stream")
+    if len(a) > 1:
+      labels.append("a0 stream with feedback")
+  if c["mem2"] is not None and len(a) > 1:
+    labels.append("memory given to the second call")
+  return {"nontrivial": len(outs[1]) >= 3 and (any(cc[0] != "const" for cc in a) or len([k for k in kinds if k != "const"]) >= 2),
+          "labels": labels}
 
 
 CLAUSES = [
   Clause("single", strat_single, run_single, quick=1500, thorough=30000,
          floors={"a0 stream": .2, "stream in feedback": .2, "coefficient stream ends first": .05,
                  "periodic": .1, "no numerator term": .05, "memory given": .1, "control stream": .1,
-                 "non-zero zero value": .1, "non-zero zero value, a0 stream": .04},
+                 "non-zero zero value": .1, "non-zero zero value, a0 stream": .04,
+                 "native stream": .06, "native stream ends first": .03,
+                 "only native streams, one ends first, constant a0": .008},
          doc="y[n] uses every coefficient stream's n-th value; ends with the shortest; one read per output"),
   Clause("constant_stream", strat_const, run_const, quick=500, thorough=8000,
          doc="a constant Stream coefficient behaves like the constant"),
@@ -525,4 +886,15 @@ CLAUSES = [
          floors={"op:add_iir": .015, "op:shared_square": .015, "op:mul": .015, "op:hub_reuse": .04,
                  "op:copy": .015, "null left operand": .004, "control stream": .1, "op:mul_common": .03},
          doc="sum / difference / product / scaling / delay act on coefficient sequences element by element; tee accounting"),
+  Clause("algebra2", lambda tier: strat_algebra(tier, OPS2), run_algebra, quick=800, thorough=10000,
+         floors={"op:pow": .1, "pow >= 3": .08, "pow negative": .025, "pow of a one-term stream polynomial": .03,
+                 "pow >= 3, stream in denominator": .035, "op:operand": .1, "stream operand": .07,
+                 "stream operand on a filter with feedback": .025, "op:div": .06, "div:common": .03,
+                 "op:add_twin": .05, "twin: stream denominators": .04, "twin: ControlStreams placed directly": .008},
+         doc="powers (p-fold products, also of the inverted filter), Stream / number operands on either side, quotients of two filters, sums of filters with look-alike denominators"),
+  Clause("again", strat_again, run_again, quick=600, thorough=6000,
+         floors={"a0 stream with feedback": .1, "again:hub": .03, "again:control": .08, "again:native": .08,
+                 "again:periodic": .1, "coefficient stream ends in the second call": .1,
+                 "memory given to the second call": .025},
+         doc="a filter called twice: the second call follows the coefficient streams from where they are; the filter is unchanged by a call"),
 ]
